@@ -358,7 +358,221 @@ theorem monoDiv_ld {o : Order} {γ e : Deg} {c : α} (hc : L.valid c) {fuel : Na
   rw [quoRemLoop_stuck (by simp) hst] at h
   cases h
 
+/-- the model's `SPolynomial` is the S-polynomial -/
+theorem sPoly_exact {o : Order} {f g s : BPoly α} (hf : WF L f) (hg : WF L g)
+    (hfl : ld o f ∈ keys f) (hgl : ld o g ∈ keys g) (bf : Bounded f) (bg : Bounded g)
+    (h : sPoly F o f g = some s) :
+    WF L s ∧ Bounded s ∧
+    toMv L s =
+      single (Crit.lcmD (ld o f) (ld o g) - ld o f) (L.embed (lc F o f))⁻¹ * toMv L f
+      - single (Crit.lcmD (ld o f) (ld o g) - ld o g) (L.embed (lc F o g))⁻¹ * toMv L g := by
+  have vf : L.valid (lc F o f) := lc_valid L hf.cv o
+  have vg : L.valid (lc F o g) := lc_valid L hg.cv o
+  have nf : L.embed (lc F o f) ≠ 0 := coef_ne_zero L hf hfl
+  have ng : L.embed (lc F o g) ≠ 0 := coef_ne_zero L hg hgl
+  have ef : lt F o f = [(ld o f, lc F o f)] :=
+    lt_eq_single F o f ((L.isZero_false_iff _ vf).2 nf)
+  have eg : lt F o g = [(ld o g, lc F o g)] :=
+    lt_eq_single F o g ((L.isZero_false_iff _ vg).2 ng)
+  unfold sPoly at h
+  simp only at h
+  rw [ef, eg] at h
+  split at h
+  · rename_i q1 r1 q2 r2 h1 h2
+    obtain ⟨-, l1⟩ := monoDiv_ld L vf h1
+    obtain ⟨-, l2⟩ := monoDiv_ld L vg h2
+    have hγ : monomialLcm F o [(ld o f, lc F o f)] [(ld o g, lc F o g)]
+        = [(Crit.lcmD (ld o f) (ld o g), F.one)] := by
+      unfold monomialLcm
+      simp only [l1, l2]
+      rfl
+    rw [hγ] at h1 h2
+    obtain ⟨lp, -⟩ := monoDiv_ld L vf h1
+    have bdf := Gb.ld_bounded (o := o) bf
+    have bdg := Gb.ld_bounded (o := o) bg
+    have hb : (Crit.lcmD (ld o f) (ld o g)).1 < 2 ^ 64 ∧ (Crit.lcmD (ld o f) (ld o g)).2 < 2 ^ 64 := by
+      unfold Crit.lcmD
+      simp only
+      omega
+    obtain ⟨qa, ha1, ha2, ha3⟩ := monoDiv_good L vf nf
+      (by unfold Crit.lcmD; simp only; omega) hb lp l1
+    obtain ⟨qb, hb1, hb2, hb3⟩ := monoDiv_good L vg ng
+      (by unfold Crit.lcmD; simp only; omega) hb lp l2
+    rw [ha1] at h1
+    rw [hb1] at h2
+    simp only [Option.some.injEq, Prod.mk.injEq] at h1 h2
+    obtain ⟨rfl, -⟩ := h1
+    obtain ⟨rfl, -⟩ := h2
+    simp only [List.headD_cons] at h
+    split at h
+    · rename_i a b ha hb'
+      cases h
+      obtain ⟨wa, ta⟩ := Gb.mulNoReduce_spec2 L ha2.cv hf.cv bf ha
+      obtain ⟨wb, tb⟩ := Gb.mulNoReduce_spec2 L hb2.cv hg.cv bg hb'
+      obtain ⟨ws, ts⟩ := sub_spec L wa wb.cv
+      refine ⟨ws, ?_, ?_⟩
+      · have b1 := Bounded_mulNoReduce ha
+        have b2 := Bounded_mulNoReduce hb'
+        rw [Bounded_iff_KeysIn] at b1 b2 ⊢
+        exact KeysIn_sub b1 b2
+      · rw [ts, ta, tb, ha3, hb3]
+        rfl
+    · cases h
+  · cases h
+
 end MonoDiv
+
+/-! ### the criterion for the model -/
+
+section Final
+variable {α : Type} {F : FOps α} {K : Type} [Field K] (L : Lawful F K)
+
+theorem toMv_mul_mem {N : Submodule K (AddMonoidAlgebra K (ℕ × ℕ))} (q : BPoly α)
+    (p : AddMonoidAlgebra K (ℕ × ℕ)) (h : ∀ t ∈ keys q, single t 1 * p ∈ N) :
+    toMv L q * p ∈ N := by
+  induction q with
+  | nil => simp
+  | cons x q ih =>
+    rw [toMv_cons, add_mul, Crit.single_eq_smul_mul]
+    exact N.add_mem (N.smul_mem _ (h x.1 (by simp [keys])))
+      (ih (fun t ht => h t (List.mem_cons_of_mem _ ht)))
+
+theorem dot_mem_submodule {N : Submodule K (AddMonoidAlgebra K (ℕ × ℕ))} :
+    ∀ (qs gs : List (BPoly α)),
+      (∀ (j : Nat) (q g : BPoly α), qs[j]? = some q → gs[j]? = some g → toMv L q * toMv L g ∈ N) →
+      dot L qs gs ∈ N := by
+  intro qs
+  induction qs with
+  | nil => intro gs _; simp
+  | cons q qs ih =>
+    intro gs h
+    cases gs with
+    | nil => simp
+    | cons g gs =>
+      rw [dot_cons]
+      refine N.add_mem (h 0 q g rfl rfl) (ih gs fun j q' g' hq hg => h (j + 1) q' g' ?_ ?_)
+      · simpa using hq
+      · simpa using hg
+
+/-- the generators of the list as a family, and their leading exponents -/
+noncomputable def genOf (G : List (BPoly α)) : Fin G.length → AddMonoidAlgebra K (ℕ × ℕ) :=
+  fun i => toMv L G[i]
+
+def exOf (o : Order) (G : List (BPoly α)) : Fin G.length → Deg := fun i => ld o G[i]
+
+theorem range_genOf (G : List (BPoly α)) :
+    Set.range (genOf L G) = (toMv L) '' {g | g ∈ G} := by
+  ext p
+  constructor
+  · rintro ⟨i, rfl⟩
+    exact ⟨G[i], List.getElem_mem _, rfl⟩
+  · rintro ⟨g, hg, rfl⟩
+    obtain ⟨i, hi, rfl⟩ := List.getElem_of_mem hg
+    exact ⟨⟨i, hi⟩, rfl⟩
+
+theorem genOK_of {o : Order} (hadm : Admissible o) {G : List (BPoly α)}
+    (hG : ∀ g ∈ G, WF L g ∧ g ≠ []) (hGx : ∀ g ∈ G, ∀ d ∈ keys g, Exact o d) :
+    Crit.GenOK (tlt o) (genOf L G) (exOf o G) := by
+  intro i
+  have hm : G[i] ∈ G := List.getElem_mem _
+  obtain ⟨h1, h2⟩ := ld_spec hadm (hG _ hm).2 (hGx _ hm)
+  refine ⟨(mem_keys_iff L (hG _ hm).1 _).1 h1, fun d hd => h2 d ?_⟩
+  exact (mem_keys_iff L (hG _ hm).1 d).2 hd
+
+theorem sPol_genOf {o : Order} {G : List (BPoly α)} (hG : ∀ g ∈ G, WF L g) (i j : Fin G.length) :
+    Crit.sPol (genOf L G) (exOf o G) i j =
+      single (Crit.lcmD (ld o G[i]) (ld o G[j]) - ld o G[i]) (L.embed (lc F o G[i]))⁻¹ * toMv L G[i]
+      - single (Crit.lcmD (ld o G[i]) (ld o G[j]) - ld o G[j]) (L.embed (lc F o G[j]))⁻¹
+          * toMv L G[j] := by
+  have ci : (toMv L G[i]).coeff (ld o G[i]) = L.embed (lc F o G[i]) :=
+    toMv_apply L (hG _ (List.getElem_mem _)) _
+  have cj : (toMv L G[j]).coeff (ld o G[j]) = L.embed (lc F o G[j]) :=
+    toMv_apply L (hG _ (List.getElem_mem _)) _
+  rw [Crit.single_eq_smul_mul _ (L.embed (lc F o G[i]))⁻¹,
+    Crit.single_eq_smul_mul _ (L.embed (lc F o G[j]))⁻¹, ← ci, ← cj]
+  rfl
+
+/-- the hypothesis of the abstract criterion from the model's data: for every pair `i < j` the
+    S-polynomial exists, its division by the list returns remainder `[]`, and that division did not
+    wrap around -/
+theorem sPairsOK_of_model {o : Order} (hadm : Admissible o) {G : List (BPoly α)}
+    (hG : ∀ g ∈ G, WF L g ∧ g ≠ [] ∧ Bounded g) (hGx : ∀ g ∈ G, ∀ d ∈ keys g, Exact o d)
+    (hpairs : ∀ (i j : Nat) (_ : i < j) (hj : j < G.length), ∃ s qs,
+      sPoly F o (G[i]'(by omega)) G[j] = some s ∧
+      quoRemLoop F o none G divFuel s (G.map fun _ => []) [] = some (qs, []) ∧
+      (∀ d ∈ keys s, NoOverflow o d) ∧ RunOK F o none G divFuel s) :
+    Crit.SPairsOK (tlt o) (genOf L G) (exOf o G) := by
+  have H := tlt_monOrd hadm
+  have hGok := genOK_of L hadm (fun g hg => ⟨(hG g hg).1, (hG g hg).2.1⟩) hGx
+  apply Crit.SPairsOK_of_lt
+  intro i j hij
+  obtain ⟨s, qs, hs, hq, hno, hrun⟩ := hpairs i.1 j.1 hij j.2
+  have hi : G[i] ∈ G := List.getElem_mem _
+  have hj : G[j] ∈ G := List.getElem_mem _
+  have li := (ld_spec hadm (hG _ hi).2.1 (hGx _ hi)).1
+  have lj := (ld_spec hadm (hG _ hj).2.1 (hGx _ hj)).1
+  obtain ⟨ws, -, ts⟩ := sPoly_exact L (hG _ hi).1 (hG _ hj).1 li lj (hG _ hi).2.2 (hG _ hj).2.2 hs
+  have hsp : toMv L s = Crit.sPol (genOf L G) (exOf o G) i j := by
+    rw [sPol_genOf L (fun g hg => (hG g hg).1), ts]
+  rw [← hsp]
+  by_cases hs0 : s = []
+  · subst hs0; rw [toMv_nil]; exact Submodule.zero_mem _
+  · have hsx : ∀ d ∈ keys s, Exact o d := fun d hd => Or.inr (hno d hd)
+    obtain ⟨ls1, -⟩ := ld_spec hadm hs0 hsx
+    have hlt : tlt o (ld o s) (Crit.lcmD (exOf o G i) (exOf o G j)) := by
+      apply Crit.sPol_supp H hGok i j
+      rw [← hsp]
+      exact (mem_keys_iff L ws _).1 ls1
+    obtain ⟨-, -, -, e, -, qok⟩ := quoRemLoop_init_spec L hadm (fun g hg => (hG g hg).1.cv) ws hno
+      hrun hq
+    rw [e, toMv_nil, add_zero]
+    apply dot_mem_submodule
+    intro k q g hqk hgk
+    apply toMv_mul_mem
+    intro t ht
+    obtain ⟨hsh, hle⟩ := qok k q g hqk hgk t ht
+    obtain ⟨hk, rfl⟩ := List.getElem?_eq_some_iff.1 hgk
+    have hgm : G[k] ∈ G := List.getElem_mem _
+    have lk := (ld_spec hadm (hG _ hgm).2.1 (hGx _ hgm)).1
+    have hx1 : Exact o ((ld o G[k]).1 + t.1, (ld o G[k]).2 + t.2) := Or.inr (hsh _ lk)
+    have hle' := (cmp_le_iff o hx1 (hsx _ ls1)).1 hle
+    refine Submodule.subset_span ⟨⟨k, hk⟩, t, ?_, rfl⟩
+    have e2 : t + exOf o G ⟨k, hk⟩ = ((ld o G[k]).1 + t.1, (ld o G[k]).2 + t.2) := by
+      show t + ld o G[k] = _
+      exact Prod.ext (Nat.add_comm _ _) (Nat.add_comm _ _)
+    rw [e2]
+    exact H.lt_of_le_of_lt hle' hlt
+
+/-- **Buchberger's criterion for the model.**  `G` : well-formed nonzero generators with word-size
+    exponents whose comparisons are exact; for every pair `i < j` the model's S-polynomial exists,
+    its division by `G` returns the remainder `[]` and that run did not wrap around.  Then the
+    leading exponent (the model's `Ld`) of every nonzero well-formed `f` with exact exponents in
+    the ideal generated by `G` is divisible by the leading exponent of some element of `G`. -/
+theorem criterion_model {o : Order} (hadm : Admissible o) {G : List (BPoly α)}
+    (hG : ∀ g ∈ G, WF L g ∧ g ≠ [] ∧ Bounded g) (hGx : ∀ g ∈ G, ∀ d ∈ keys g, Exact o d)
+    (hpairs : ∀ (i j : Nat) (_ : i < j) (hj : j < G.length), ∃ s qs,
+      sPoly F o (G[i]'(by omega)) G[j] = some s ∧
+      quoRemLoop F o none G divFuel s (G.map fun _ => []) [] = some (qs, []) ∧
+      (∀ d ∈ keys s, NoOverflow o d) ∧ RunOK F o none G divFuel s)
+    {f : BPoly α} (wf : WF L f) (hne : f ≠ []) (hfx : ∀ d ∈ keys f, Exact o d)
+    (hmem : toMv L f ∈ Ideal.span ((toMv L) '' {g | g ∈ G})) :
+    ∃ g ∈ G, subDegs (ld o f) (ld o g) ≠ none := by
+  have H := tlt_monOrd hadm
+  have hGok := genOK_of L hadm (fun g hg => ⟨(hG g hg).1, (hG g hg).2.1⟩) hGx
+  have hS := sPairsOK_of_model L hadm hG hGx hpairs
+  rw [← range_genOf] at hmem
+  have hf0 : toMv L f ≠ 0 := fun h0 => hne (eq_nil_of_toMv_eq_zero L wf h0)
+  obtain ⟨i, a, h1, h2⟩ := Crit.criterion H hGok hS hmem hf0
+  obtain ⟨l1, l2⟩ := ld_spec hadm hne hfx
+  have hk : a + exOf o G i ∈ keys f := (mem_keys_iff L wf _).2 h1
+  have heq : ld o f = a + exOf o G i :=
+    H.eq_of_le_of_le (h2 _ ((mem_keys_iff L wf _).1 l1)) (l2 _ hk)
+  refine ⟨G[i], List.getElem_mem _, ?_⟩
+  have : subDegs (ld o f) (ld o G[i]) = some a := by
+    rw [subDegs_eq_some_iff, heq, add_comm]; rfl
+  rw [this]; exact Option.some_ne_none _
+
+end Final
 
 end BPoly
 end Algobra
